@@ -991,6 +991,23 @@ pub fn fam_retry(tier: Tier) -> Vec<Config> {
         cfg.name = format!("retry/filter-levels|{expr}|f{ftag}|r{rtag}|s{stag}");
         out.push(cfg);
     }
+    // a two-digit budget from a tag (`@retry(12)`, as the book writes `@retry(10)`): thirteen
+    // attempts, numbered 0..=12
+    for (tag, fails) in [("retry(12)", 13usize), ("retry(10).after(1s)", 3)] {
+        let mut cfg = base(format!("retry/two-digit|{tag}"));
+        cfg.feats = vec![feat(vec![scen(&[tag], &[M]), scen(&[], &[M])])];
+        cfg.items = vec![Item::Feat(0)];
+        cfg.conc_builder = Some(Some(1));
+        cfg.plan.gates = GateMode::None;
+        let key = cfg.scen_infos()[0].calls[0].key.clone();
+        let mut o = vec![Outcome::PanicString; fails];
+        o.push(Outcome::Pass);
+        cfg.plan.outcomes.insert(key, o);
+        cfg.clock_budget = 4;
+        cfg.clock_step = Duration::from_secs(2);
+        cfg.max_execs = 50;
+        out.push(cfg);
+    }
     // delays at the small end: below a millisecond (from a tag, the CLI and the builder) and
     // exactly one millisecond; a retry waits for them like for any other delay
     for (src, dur) in [("tag", 900u64), ("cli", 900), ("builder", 1), ("tag", 1000), ("cli", 1000)] {
@@ -1115,7 +1132,7 @@ pub fn fam_ff(tier: Tier) -> Vec<Config> {
     }
     // every kind of final failure trips fail-fast, not only a panicking step
     // (`after-skip`: a skipped step plus a failing after hook)
-    for kind in ["ambiguous", "before", "after", "after-skip", "world-err", "world-panic"] {
+    for kind in ["ambiguous", "before", "after", "after-skip", "world-err", "world-panic", "world-err-before", "world-panic-sync"] {
         for failing in 0..3usize {
             for conc in [Some(1usize), Some(2)] {
                 for retry in 0..=1usize {
@@ -1134,7 +1151,7 @@ pub fn fam_ff(tier: Tier) -> Vec<Config> {
                     let (a, b) = scs.split_at(1);
                     cfg.feats = vec![feat(a.to_vec()), feat(b.to_vec())];
                     cfg.items = vec![Item::Feat(0), Item::Feat(1)];
-                    cfg.before = kind == "before";
+                    cfg.before = kind == "before" || kind == "world-err-before";
                     cfg.after = kind.starts_with("after");
                     cfg.conc_builder = Some(conc);
                     cfg.fail_fast_builder = true;
@@ -1151,7 +1168,14 @@ pub fn fam_ff(tier: Tier) -> Vec<Config> {
                                 .insert(format!("{hook} {}", infos[failing].name), vec![Outcome::PanicString]);
                         }
                         "world-err" => cfg.plan.world_new = vec![WOutcome::Err; retry + 1],
+                        // (with a before hook, and a World that can never be created)
+                        "world-err-before" => cfg.plan.world_new_rest = WOutcome::Err,
                         "world-panic" => cfg.plan.world_new = vec![WOutcome::Panic; retry + 1],
+                        "world-panic-sync" => {
+                            // the constructor panics when called (no before hook: created lazily)
+                            cfg.plan.world_new = vec![WOutcome::Panic; retry + 1];
+                            cfg.plan.sync_panics = true;
+                        }
                         _ => {}
                     }
                     cfg.bound = Some(if tier == Tier::Quick { 2 } else { 3 });
